@@ -214,6 +214,34 @@ def generate(src, strip_comments, fn_body, header, repo):
             L.append("def preGateUnknownGuard : List (String × String) := [%s]" % ", ".join("(%s, %s)" % (lean_str(n), lean_str(c)) for n, c in pre_u))
         loop_names = re.findall(NAME, section)
 
+    # ---------------------------------------------------------------- (a') name normalisation and QUIT in the frame loop
+    loop_norm_ok = pc is not None and bool(re.search(r"let\s+command\s*=\s*String::from_utf8_lossy\(bytes\)\.to_uppercase\(\)\s*;", pc))
+    pf0 = fn_body(text, "process_frame") or ""
+    nm = re.search(r"let\s+command\s*=\s*match\s+cmd_frame\s*\{\s*RespFrame::BulkString\(Some\(bytes\)\)\s*=>\s*\{(.*?)\}\s*_\s*=>", pf0, re.S)
+    arm = re.sub(r"\s+", " ", nm.group(1)).strip() if nm else None
+    if not loop_norm_ok or arm is None:
+        fail("frameNameTrimmed", "Bool", "command-name normalisation of process_connection / process_frame not found")
+    elif arm == "String::from_utf8_lossy(bytes).to_uppercase()":
+        L.append("/-- `process_frame` takes the command name as `String::from_utf8_lossy(bytes).to_uppercase()`, like the frame loop (false), or")
+        L.append("    trims it first (true: `.trim().to_uppercase()`) -/")
+        L.append("def frameNameTrimmed : Bool := false")
+    elif re.fullmatch(r"let cmd_raw = String::from_utf8_lossy\(bytes\); let cmd_clean = cmd_raw\.trim\(\)\.to_uppercase\(\); cmd_clean", arm) or \
+            arm == "String::from_utf8_lossy(bytes).trim().to_uppercase()":
+        L.append("/-- `process_frame` trims the command name before upper-casing it (the frame loop does not) -/")
+        L.append("def frameNameTrimmed : Bool := true")
+    else:
+        fail("frameNameTrimmed", "Bool", "command-name normalisation of process_frame has an unknown shape: %s" % arm[:120])
+    if pc is not None:
+        sets_close = bool(re.search(r'if\s+command\s*==\s*"QUIT"\s*\{\s*should_close\s*=\s*true;\s*\}', pc))
+        breaks = bool(re.search(r"responses\.push\(response\);\s*if\s+should_close\s*\{\s*break;\s*\}", pc))
+        other_break = len(re.findall(r"\bshould_close\b", pc))
+    if pc is None or not sets_close:
+        fail("quitEndsBatch", "Bool", "`if command == \"QUIT\" { should_close = true; }` not found in process_connection")
+    else:
+        L.append("/-- QUIT (name as the frame loop normalises it) sets `should_close`; true: `responses.push(response); if should_close { break; }` —")
+        L.append("    the frames that follow QUIT in the same read are neither executed nor answered; false: they are all executed first -/")
+        L.append("def quitEndsBatch : Bool := %s" % ("true" if breaks else "false"))
+
     # ---------------------------------------------------------------- (b) the gate of process_frame
     pf = fn_body(text, "process_frame")
     frame_names = []
